@@ -1,4 +1,5 @@
 import SFV.Lemmas.GatherMore
+import SFV.Lemmas.GatherTerm
 /-! # C01 — scatter then gather returns the original list in its original order
 
 Property theorems only; the development is in `SFV/Lemmas/Gather*.lean`, the model in `SFV/Model/Gather.lean`.
@@ -87,6 +88,24 @@ theorem gather_multi_key {V} (ins : List (Tag × List V)) (hnd : (ins.map (·.1)
     (by intro g hg; obtain ⟨i, _, rfl⟩ := List.mem_map.mp hg; exact scatterFrom_sorted i.1 0 i.2)
     es hperm pa pb hab sa sb
   exact ⟨this.1, by simpa using this.2⟩
+
+/-- **termination tokens anywhere.** The termination token of one port may arrive while tokens of the other port
+    are still to come (e.g. the size port terminates right after the size token, before any element): the first
+    termination token `p` may sit anywhere, provided nothing of its own port follows it (FIFO). Same outputs. -/
+theorem gather_termination_anywhere {V} (ins : List (Tag × List V)) (hnd : (ins.map (·.1)).Nodup) (a b : List (Ev V))
+    (h : (a ++ b).Perm (ins.flatMap (fun i => scatterEvents i.1 i.2)))
+    (p q : PortId) (hpq : p ≠ q) (hpb : ∀ e ∈ b, portOf e ≠ p) (sa sb : Status) :
+    (run 1 (a ++ [.term p sa] ++ b ++ [.term q sb])).out.Perm (ins.map (fun i => (i.1, (scatter i.1 i.2).1))) ∧
+    (run 1 (a ++ [.term p sa] ++ b ++ [.term q sb])).terminated =
+      some (getStatus (reduce2 (reduce2 .skipped sa) sb) ins.isEmpty) := by
+  have hdata : ∀ e ∈ a ++ b, IsData e := by
+    intro e he
+    obtain ⟨i, _, hei⟩ := List.mem_flatMap.mp (h.subset he)
+    simp only [scatterEvents, List.mem_append, List.mem_map, List.mem_singleton] at hei
+    rcases hei with ⟨t, _, rfl⟩ | rfl <;> trivial
+  rw [run_term_middle 1 a b p q sa sb (fun e he => hdata e (List.mem_append_left _ he))
+    (fun e he => hdata e (List.mem_append_right _ he)) hpb]
+  exact gather_multi_key ins hnd (a ++ b) h p q hpq sa sb
 
 /-- **depth parameter.** One gather step with `depth = 2` fed with the leaves of a scatter of scatters (tags
     `p.i.j`) and a size token announcing their number: exactly one list tagged `p` with all leaves in row-major
